@@ -127,16 +127,24 @@ def k_by_rank(ctx: Ctx):
                     if k is not None and kinds.get(s.targets[0].id) != k and s.targets[0].id not in f.all_params:
                         kinds[s.targets[0].id] = k
                         changed = True
+        from ..common import inline_locals
+
         sels = []
         for c in own_scope_nodes(f.node):
-            if isinstance(c, ast.Call) and call_name(c) == "where" and c.args and isinstance(c.args[0], ast.Compare) and len(c.args[0].ops) == 1:
-                sels.append(c)
+            if isinstance(c, ast.Call) and call_name(c) == "where" and c.args:
+                t0 = c.args[0]
+                if isinstance(t0, ast.Name):
+                    t0 = inline_locals(f.node, t0, depth=1)  # is_kept = ranks < k; where(is_kept, ...)
+                    for n_ in ast.walk(t0):
+                        if not hasattr(n_, "lineno"):
+                            n_.lineno, n_.col_offset = c.lineno, 0
+                if isinstance(t0, ast.Compare) and len(t0.ops) == 1:
+                    sels.append((c, t0))
             if isinstance(c, ast.Subscript) and isinstance(c.slice, ast.Compare) and len(c.slice.ops) == 1:
-                sels.append(c)
+                sels.append((c, c.slice))
         if not sels:
             raise AnalysisError(f"K-BY-RANK: no selecting comparison found in {q}; the rule's anchor vanished")
-        for c in sels:
-            t = c.args[0] if isinstance(c, ast.Call) else c.slice
+        for c, t in sels:
             kl, kr = kind(t.left), kind(t.comparators[0])
             ok = {kl, kr} == {"RANK", "COUNT"}
             res.instance("K-BY-RANK", f"{f.name}: {src(t)[:60]}", sample={"line": t.lineno, "left": kl, "right": kr, "ok": ok})
@@ -167,6 +175,10 @@ def involution_pair(ctx: Ctx):
                 a = s.body[0]
                 if isinstance(a.value, ast.Call) and call_name(a.value) in ("flip", "transpose", "moveaxis") and a.value.args and len(a.targets) == 1 and isinstance(a.targets[0], ast.Name) and is_name(a.value.args[0], a.targets[0].id):
                     flips.append((src(s.test), a.targets[0].id, call_name(a.value), a.value, s))
+            # conditional-expression form:  w = flip(w, ...) if flag else w   /   return flip(w, ...) if flag else w
+            v = s.value if isinstance(s, (ast.Assign, ast.Return)) else None
+            if isinstance(v, ast.IfExp) and isinstance(v.body, ast.Call) and call_name(v.body) in ("flip", "transpose", "moveaxis") and v.body.args and isinstance(v.body.args[0], ast.Name) and is_name(v.orelse, v.body.args[0].id):
+                flips.append((src(v.test), v.body.args[0].id, call_name(v.body), v.body, s))
         by_key = {}
         for t, w, fn, c, s in flips:
             by_key.setdefault((t, w, fn), []).append((c, s))
